@@ -357,3 +357,27 @@ Lemma wf_examples :
   wf_user (mkUE "app" "x" 4294967295 0 "Account created by apko" "/home/app" "/bin/sh") = true /\
   wf_group (mkGE "g" "x" 5 ["a"; "b"]) = true /\ wf_group (mkGE "h" "x" 6 []) = true.
 Proof. repeat split; vm_compute; reflexivity. Qed.
+
+(* re-reading turns "no members" into one empty member (strings.Split("", ",")
+   is [""]); the written text does not show the difference *)
+Lemma write_group_norm : forall e, write_group (norm_group e) = write_group e.
+Proof.
+  intros [n p g ms]. unfold write_group, norm_group. cbn [ge_name ge_pw ge_gid ge_members].
+  destruct ms as [|m t]; [cbn [norm_members join]|]; reflexivity.
+Qed.
+Lemma write_groups_norm : forall es, write_groups (List.map norm_group es) = write_groups es.
+Proof.
+  intro es. unfold write_groups. rewrite List.map_map. f_equal. apply List.map_ext. intro e. apply write_group_norm.
+Qed.
+
+(* what mutateAccounts writes is read back as the same entries: the old ones
+   followed by the configured ones *)
+Corollary reread_users : forall old users,
+  forallb wf_user old = true -> forallb wf_user (List.map user_to_entry users) = true ->
+  parse_users (write_users (old ++ List.map user_to_entry users)) = Some (old ++ List.map user_to_entry users).
+Proof. intros old users H1 H2. apply parse_write_users. rewrite forallb_app, H1, H2. reflexivity. Qed.
+Corollary reread_groups : forall old groups,
+  forallb wf_group old = true -> forallb wf_group (List.map group_to_entry groups) = true ->
+  parse_groups (write_groups (old ++ List.map group_to_entry groups)) =
+    Some (List.map norm_group (old ++ List.map group_to_entry groups)).
+Proof. intros old groups H1 H2. apply parse_write_groups. rewrite forallb_app, H1, H2. reflexivity. Qed.
